@@ -130,7 +130,17 @@ func dumpRoutes() {
 		fmt.Fprintln(os.Stderr, "ast:", err)
 		os.Exit(1)
 	}
-	sb.WriteString("/-- per `case` of the switch in newRouter: service-name constant, group prefix constant, and whether the\n    group's `Use(<auth middleware>)` precedes `applyRoutes` -/\n")
+	factsFrom := "go/ast: per `case` of the switch in newRouter"
+	if len(facts) == 0 {
+		// newRouter is not written as a switch over the service names (a table, a helper per service, …): the same facts
+		// are taken from the compiled router instead - per service, alone on the engine: the prefix its routes lie under,
+		// that every one of its routes got the group's middleware (gin fixes a route's handler chain when the route is
+		// registered: a route registered before Use() has a chain one handler shorter), and that this middleware is the
+		// authorization check (a request without token, OAuth2 mandatory, is answered 401 on every route)
+		factsFrom = "compiled router (newRouter is not a switch over the service names): per service alone on the engine"
+		facts, bare = runtimeRouterFacts(base)
+	}
+	fmt.Fprintf(&sb, "/-- %s: service name, group prefix, whether the group's\n    middleware is installed before its routes are registered, and whether that middleware is the authorization check -/\n", factsFrom)
 	sb.WriteString("def caseFacts : List CaseFact := [\n")
 	for i, f := range facts {
 		sep := ","
@@ -191,6 +201,63 @@ func baseChainLen() int {
 type caseFact struct {
 	name, prefix         string
 	useBefore, authInUse bool
+}
+
+// runtimeRouterFacts: the facts of astRouterFacts read off the compiled router (see dumpRoutes)
+func runtimeRouterFacts(base int) ([]caseFact, int) {
+	var out []caseFact
+	bare := 0
+	prefixes := []string{factory.ConvergedChargingResUriPrefix, factory.OfflineOnlyChargingResUriPrefix, factory.SpendingLimitControlResUriPrefix}
+	setupNrfCert()
+	for _, svc := range allServices {
+		chf_context.GetSelf().OAuth2Required = false
+		eng, routes := buildRouter([]string{svc})
+		cf := caseFact{name: svc, useBefore: len(routes) > 0, authInUse: len(routes) > 0}
+		for _, r := range routes {
+			group := ""
+			for _, p := range prefixes {
+				if strings.HasPrefix(r.Path, p+"/") || r.Path == p {
+					group = p
+				}
+			}
+			if group == "" {
+				bare++
+				continue
+			}
+			if cf.prefix == "" {
+				cf.prefix = group
+			} else if cf.prefix != group {
+				cf.useBefore = false
+			}
+			if r.Chain != base+2 {
+				cf.useBefore = false
+			}
+			// the middleware is the authorization check: no token, OAuth2 mandatory -> 401
+			self := chf_context.GetSelf()
+			self.OAuth2Required = true
+			self.NrfCertPem = nrfCertPem
+			path := r.Path
+			parts := strings.Split(path, "/")
+			for i, p := range parts {
+				if strings.HasPrefix(p, ":") {
+					parts[i] = "x"
+				}
+			}
+			req := httptest.NewRequest(r.Method, strings.Join(parts, "/"), strings.NewReader("{}"))
+			req.Header.Set("Content-Type", "application/json")
+			w := httptest.NewRecorder()
+			func() {
+				defer func() { _ = recover() }()
+				eng.ServeHTTP(w, req)
+			}()
+			if w.Code != 401 {
+				cf.authInUse = false
+			}
+			self.OAuth2Required = false
+		}
+		out = append(out, cf)
+	}
+	return out, bare
 }
 
 // astRouterFacts reads newRouter syntactically.
